@@ -608,9 +608,15 @@ func Render(p *Program, pkg, modPath string) string {
 		b.WriteString("\ttm \"time\"\n")
 	case "other":
 		fmt.Fprintf(&b, "\ttime \"%s/othertime\"\n", modPath)
+	case "dirname":
+		// an unnamed import of a package called time that lives in a directory of another name
+		fmt.Fprintf(&b, "\t\"%s/ext/go-time\"\n", modPath)
 	}
 	if p.F.DebugImp == "other" {
 		fmt.Fprintf(&b, "\t\"%s/ext/debug\"\n", modPath)
+	}
+	if p.F.DebugImp == "dirname" {
+		fmt.Fprintf(&b, "\t\"%s/ext/go-debug\"\n", modPath)
 	}
 	if p.F.CffAlias != "" {
 		fmt.Fprintf(&b, "\t%s \"go.uber.org/cff\"\n", p.F.CffAlias)
@@ -635,10 +641,10 @@ func Render(p *Program, pkg, modPath string) string {
 		b.WriteString("var _ = time.Second\n\n")
 	case "alias":
 		b.WriteString("var _ = tm.Second\n\n")
-	case "other":
+	case "other", "dirname":
 		b.WriteString("var _ = time.Marker\n\n")
 	}
-	if p.F.DebugImp == "other" {
+	if p.F.DebugImp == "other" || p.F.DebugImp == "dirname" {
 		b.WriteString("var _ = debug.Marker\n\n")
 	}
 	fmt.Fprintf(&b, "func init() { probe.Register(%q, `%s`, run_%s) }\n\n", p.ID, p.JSON(), p.ID)
